@@ -50,6 +50,18 @@ def vectors(ctx, states):
             cs = rng.choice("ULM")
             V.append({"fn": rng.choice(["icao", "icao", "adsb.icao", "allcall.icao"]), "text": case_text(f, cs, rng),
                       "rel": 0, "case": cs, "df": df, "a": -1})
+    # frames whose leading bytes are a complete codeword (the running remainder is zero part-way), zero bytes next, then more
+    for k in range(ctx.pick(600, 40000)):
+        df = rng.choice([0, 4, 5, 16, 20, 21, 20, 21, 11, 17])
+        n = 14 if (df >= 16 or k % 3 == 0) else 7
+        cut = rng.randrange(4, n)
+        head = gen.with_parity([(df << 3) | rng.randrange(8)] + [rng.randrange(256) for _ in range(cut - 4)])
+        rest = [0 if rng.random() < 0.5 else rng.randrange(256) for _ in range(n - cut)]
+        if rest and k % 2:
+            rest[0] = 0
+        f = head + rest
+        cs = rng.choice("ULM")
+        V.append({"fn": "icao", "text": case_text(f, cs, rng), "rel": 0, "case": cs, "df": df, "a": -1})
     # seeded random frames, random case
     for k in range(ctx.pick(6000, 400000)):
         f = gen.rand_frame(rng)
